@@ -77,8 +77,10 @@ pub struct Table {
 }
 
 pub fn date_to_string(days: i32) -> String {
-    let d = chrono::NaiveDate::from_ymd_opt(1970, 1, 1).unwrap() + chrono::Duration::days(days as i64);
-    d.format("%Y-%m-%d").to_string()
+    match chrono::NaiveDate::from_ymd_opt(1970, 1, 1).unwrap().checked_add_signed(chrono::Duration::days(days as i64)) {
+        Some(d) if (-200_000..=200_000).contains(&days) => d.format("%Y-%m-%d").to_string(),
+        _ => format!("day{}", days),
+    }
 }
 
 impl Cell {
